@@ -69,11 +69,13 @@ Proof. unfold sp_saturate, saturate_fragment. rewrite !choose_min_spec. reflexiv
 Lemma sp_bits_const d n : n * 8 < two64 -> sp_bits (mkspan d n 0) = n * 8.
 Proof. intros H. unfold sp_bits. cbn [sp_size sp_off]. rewrite w64_small by exact H. destruct (N.ltb_spec (n * 8) 0); lia. Qed.
 
-Theorem cpp_set_uxx_is_c s value len :
-  span_ok s -> sp_off s + len < two64 ->
+(* setUxx is the C nunavutSetUxx on (data, size, offset) at EVERY offset and length: both carry the saturating capacity test
+   `size*8 < off || size*8 - off < len` (no premise on off + len; /repo ba46e0a) *)
+Theorem cpp_set_uxx_is_c_all s value len :
+  span_ok s ->
   cpp_set_uxx s value len = set_uxx false (sp_data s) (sp_size s) (sp_off s) value len.
 Proof.
-  intros (S1 & S2 & S3) _. unfold cpp_set_uxx, set_uxx.
+  intros (S1 & S2 & S3). unfold cpp_set_uxx, set_uxx.
   assert (T64 : two64 = 18446744073709551616) by reflexivity.
   rewrite (w64_small (sp_size s * 8)) by lia.
   destruct (N.ltb_spec (sp_size s * 8) (sp_off s)); cbn [orb]; [reflexivity|].
@@ -82,6 +84,12 @@ Proof.
   - rewrite sp_bits_const by (rewrite T64; reflexivity). replace (N.min (N.min len 64) (8 * 8)) with (N.min len 64) by lia. reflexivity.
   - rewrite sp_bits_const by (rewrite T64; reflexivity). right. change (blen (tmp_any (w64 value))) with 8. lia.
 Qed.
+
+(* the statement with the (superfluous) domain premise: kept because Codec/Instances*.v cite it *)
+Theorem cpp_set_uxx_is_c s value len :
+  span_ok s -> sp_off s + len < two64 ->
+  cpp_set_uxx s value len = set_uxx false (sp_data s) (sp_size s) (sp_off s) value len.
+Proof. intros Hs _. apply cpp_set_uxx_is_c_all. exact Hs. Qed.
 
 Theorem cpp_set_bit_is_c s value :
   span_ok s -> cpp_set_bit s value = set_bit (sp_data s) (sp_size s) (sp_off s) value.
@@ -217,5 +225,25 @@ Proof.
   { intros o len H. apply andb_prop in H as [H H3]. apply andb_prop in H as [H1 H2].
     apply N.ltb_lt in H1. apply N.leb_le in H2. unfold alloc_ok in H3. apply N.ltb_lt in H3. apply getBits_is_c; assumption. }
   unfold span_okb in Hb'. unfold buf_pre. exact Hb'.
+Qed.
+
+(* setUxx / setIxx at every offset and length, no premise relating offset and length *)
+Theorem cpp_set_uxx_every_offset_b s :
+  span_okb s = true ->
+  (forall value len,
+     cpp_set_uxx s value len = set_uxx false (sp_data s) (sp_size s) (sp_off s) value len /\
+     if sp_size s * 8 <? sp_off s + len
+     then cpp_set_uxx s value len = Some (inr TooSmall)
+     else exists r, cpp_set_uxx s value len = Some (inl r) /\ length r = length (sp_data s) /\
+            forall p, bit r p = if (sp_off s <=? p) && (p <? sp_off s + N.min len 64)
+                                then N.testbit (value mod 2 ^ 64) (p - sp_off s) else bit (sp_data s) p) /\
+  (forall (value : Z) len,
+     cpp_set_ixx s value len = set_ixx false (sp_data s) (sp_size s) (sp_off s) value len).
+Proof.
+  intros Hb. pose proof (cpp_members_are_c_b s Hb) as (_ & _ & _ & _ & _ & _ & Hpre). apply span_okb_ok in Hb as [Hs Hok].
+  split.
+  - intros v len. split; [apply cpp_set_uxx_is_c_all; exact Hs|].
+    rewrite cpp_set_uxx_is_c_all by exact Hs. exact (set_uxx_exact_all_b false _ _ _ v len Hpre).
+  - intros v len. unfold cpp_set_ixx, set_ixx. apply cpp_set_uxx_is_c_all. exact Hs.
 Qed.
 
